@@ -27,6 +27,7 @@ def _outcome_of(res):
 
 
 EXECUTORS_DIFFER = "<BlockingExecutor and the generic Executor answer differently>"
+DEFERRED_DIFFERS = "<the generic Executor on the thread-pool runtime (tasks completed last-submitted-first) answers differently>"
 
 
 def real_run(schema, text, variables, data, opname):
@@ -38,6 +39,26 @@ def real_run(schema, text, variables, data, opname):
     b = _outcome_of(process_graphql_query(schema, text, variables=variables, root=data, operation_name=opname, executor_cls=Executor))
     if json.dumps(a[0]) != json.dumps(b[0]) or a[1] != b[1]:
         return EXECUTORS_DIFFER, [], ["%r vs %r" % (a, b)]
+    # third leg: the generic Executor on the thread-pool runtime (stub pool: every explicit resolver becomes a task), the pending tasks completed
+    # LAST-SUBMITTED-FIRST - a deterministic completion order opposite to the document order; key order, values and errors must not follow it
+    from concurrent.futures import Future
+    from py_gql.execution.runtime import ThreadPoolRuntime
+    from harness.execworld import StubPool
+    rt = ThreadPoolRuntime(max_workers=1)
+    rt._inner.shutdown(wait=False)
+    pool = rt._inner = StubPool()
+    out = process_graphql_query(schema, text, variables=variables, root=data, operation_name=opname, executor_cls=Executor, runtime=rt)
+    n = 0
+    while pool.tasks:
+        pool.run(len(pool.tasks) - 1)
+        n += 1
+        if n > 10000:
+            return DEFERRED_DIFFERS, [], ["the pool never drains"]
+    if not isinstance(out, Future) or not out.done():
+        return DEFERRED_DIFFERS, [], ["no settled future from the thread-pool runtime: %r" % (out,)]
+    c = _outcome_of(out.result())       # an exception stored in the future propagates like one raised by the blocking legs
+    if json.dumps(a[0]) != json.dumps(c[0]) or a[1] != c[1]:
+        return DEFERRED_DIFFERS, [], ["%r vs %r" % (a, c)]
     return a
 
 
